@@ -19,6 +19,7 @@ import (
 	"istio.io/istio/pkg/config/schema/collection"
 	"istio.io/istio/pkg/config/schema/collections"
 	"istio.io/istio/pkg/config/schema/gvk"
+	"verifharness/internal/wire"
 )
 
 // sliceStore is a read-only model.ConfigStore over a slice, in the order the ops file gave
@@ -197,9 +198,16 @@ var drEnum = map[string]networkingapi.ClientTLSSettings_TLSmode{
 	"ISTIO_MUTUAL": networkingapi.ClientTLSSettings_ISTIO_MUTUAL,
 }
 
-// check: the client-side auto-mTLS decision of the EDS generator for one endpoint.
-func (s *sut) check(ns string, labels [][2]string, port uint32, epTLS bool, dr string) bool {
-	ap := s.policies()
+// check: the client-side auto-mTLS decision of the EDS generator for one endpoint, evaluated as production
+// does: on the client proxy's SidecarScope.AuthnPolicies, i.e. the real selectAuthnPolicies /
+// FilterPeerAuthenticationNamespaces for a sidecar scope in clientNs importing services of importedNs.
+func (s *sut) check(ns string, labels [][2]string, port uint32, epTLS bool, dr string, clientNs string, importedNs []string, waypoint bool) string {
+	s.policies()
+	var imported []*model.Service
+	for _, n := range importedNs {
+		imported = append(imported, &model.Service{Attributes: model.ServiceAttributes{Name: "svc", Namespace: n}})
+	}
+	view := model.VerifSelectAuthnPolicies(s.push, clientNs, imported)
 	var drc *config.Config
 	if dr != "nil" {
 		drc = &config.Config{
@@ -216,5 +224,7 @@ func (s *sut) check(ns string, labels [][2]string, port uint32, epTLS bool, dr s
 	} else {
 		ep.TLSMode = model.DisabledTLSModeLabel
 	}
-	return endpoints.VerifCheckMtlsEnabled(s.push, ap, 80, drc, "", ep, false)
+	r := endpoints.VerifCheckMtlsEnabled(s.push, view, 80, drc, "", ep, waypoint)
+	be := s.push.BestEffortInferServiceMTLSMode(view, nil, &model.Service{Attributes: model.ServiceAttributes{Namespace: ns}}, &model.Port{Port: 80})
+	return fmt.Sprintf("%s BE=%s NS=%s", wire.B(r), modeTok(be), modeTok(view.GetNamespaceMutualTLSMode(ns)))
 }
